@@ -809,6 +809,7 @@ var _ rpc.Resources
 //@   ensures[C11] callcount("ResourceSubscription.Unsubscribe") == old(callcount("ResourceSubscription.Unsubscribe"))
 //@   assigns Subscription.direct, Subscription.indirect, Subscription.indirectsent, Subscription.state, Subscription.readyCallbacks,
 //@       Subscription.eventQueue, Subscription.throttle, Subscription.resourceSub, Subscription.refs, elems(s.c.(*wsConn).subs), pkgstate(rescache), cachecontainers()
+//@   assert[C02] s.c.Unsubscribe#1: !arg1 && arg2 == sent && arg3 == 1 && !arg4
 //@   safety[C15]
 //@   loop 1 invariant s.refs == old(s.refs) && (forall r string :: has(s.refs, r) ==> s.refs[r] != nil && s.refs[r].sub != nil)
 //@   loop 1 invariant forall x *Subscription :: x.state == old(x.state) && x.resourceSub == old(x.resourceSub) && x.direct == old(x.direct) &&
@@ -838,7 +839,7 @@ var _ rpc.Resources
 //@       Subscription.eventQueue, Subscription.throttle, Subscription.resourceSub, Subscription.refs, elems(s.c.(*wsConn).subs), pkgstate(rescache), cachecontainers()
 // (references are given back with the subscription's sent state as it was before the disposal:
 // a resource that was sent takes one sent-parent count from each referenced resource)
-//@   assert[C02] s.unsubscribeRefs#1: s.state == old(s.state)
+//@   assert[C02] s.unsubscribeRefs#1: arg0 == (old(s.state) == stateSent)
 //@   safety[C15]
 
 // dispose: idempotent; the connection is marked as disposing, leaves the token-reset fan-out,
